@@ -35,7 +35,9 @@ LEVEL_NOTE = 'Trusted: pandas. Not covered: MultiIndex spans; DataFrames edited 
 
 EXTRAS = [('K', 'int'), ('_hidden', 'float'), ('flag', 'bool'), ('label', 'str'), ('_n', 'int'), ('W', 'float'),
           # internal names whose non-underscore twin is a variable too (storage of `K` lives under `_K`)
-          ('_K', 'float'), ('_W', 'bool'), ('_flag', 'int')]
+          ('_K', 'float'), ('_W', 'bool'), ('_flag', 'int'),
+          # internal series of a dtype that NumPy cannot stack with floats without changing them
+          ('_tag', 'str'), ('_label', 'str')]
 
 
 def build_model(case):
@@ -225,7 +227,7 @@ def strat_model():
     return st.fixed_dictionaries({
         'prog': G.programs(max_statements=3, max_leaves=4, named_periods=False, blocks=False, big_offsets=False, max_offset=2),
         'span': st.sampled_from(descs),
-        'extras': st.lists(st.integers(0, 8), max_size=6),
+        'extras': st.lists(st.integers(0, len(EXTRAS) - 1), max_size=6),
         'solved': st.integers(0, 2),
     })
 
@@ -240,8 +242,8 @@ def strat_linker():
         k = draw(st.integers(0, 3))
         ids = draw(st.permutations(['a', 'b', 7, 'zz']))[:k]
         return {'span': draw(st.sampled_from(descs)),
-                'subs': [{'id': i, 'prog': draw(prog), 'extras': draw(st.lists(st.integers(0, 8), max_size=4))} for i in ids],
-                'name': draw(st.sampled_from(['_', 'core', 0])), 'extras': draw(st.lists(st.integers(0, 8), max_size=4)),
+                'subs': [{'id': i, 'prog': draw(prog), 'extras': draw(st.lists(st.integers(0, len(EXTRAS) - 1), max_size=4))} for i in ids],
+                'name': draw(st.sampled_from(['_', 'core', 0])), 'extras': draw(st.lists(st.integers(0, len(EXTRAS) - 1), max_size=4)),
                 'solved': draw(st.booleans())}
     return cases()
 
